@@ -103,6 +103,13 @@ def _events():
     ev("search(autodetect, NORMALIZE off)", lambda a: search_dates("Le 4 décembre 2015 et hier", settings=a["s"]), {"s": {"NORMALIZE": False}})
     ev("jalali", lambda a: JalaliCalendar("جمعه سی ام اسفند ۱۳۸۷").get_date())
     ev("hijri", lambda a: HijriCalendar("17-01-1437 هـ 08:30 مساءً").get_date())
+    # a valid settings dict and wrongly typed ones whose values print / compare / hash like the valid one: validation must not
+    # be remembered under a key that confuses them
+    ev("parse(STRICT_PARSING True, CACHE 500)", lambda a: P("March 2015", languages=["en"], settings=a["s"]), {"s": {"STRICT_PARSING": True, "CACHE_SIZE_LIMIT": 500}})
+    ev("fail: STRICT_PARSING 'True', CACHE '500' (print like valid values)", lambda a: P("March 2015", languages=["en"], settings=a["s"]),
+       {"s": {"STRICT_PARSING": "True", "CACHE_SIZE_LIMIT": "500"}})
+    ev("fail: STRICT_PARSING 1, CACHE 500.0 (compare equal to valid values)", lambda a: P("March 2015", languages=["en"], settings=a["s"]),
+       {"s": {"STRICT_PARSING": 1, "CACHE_SIZE_LIMIT": 500.0}})
     ev("fail: unknown setting", lambda a: P("2015-03-02", settings=a["s"]), {"s": {"BOGUS": 1}})
     ev("fail: unknown language", lambda a: P("2015-03-02", languages=a["l"]), {"l": ["xx"]})
     ev("fail: non-str", lambda a: P(5))
